@@ -843,11 +843,43 @@ fn c15_merge(ctx: &mut Ctx, operands: &[Value]) {
             ctx.violation("c15.merge.length", "length-order", &rule, &data, json!({"length": want}), obs.out.brief(), "merge result is not the one-level concatenation in order");
         }
     }
+    // other spellings of the same call: the single operand written without brackets (one operand = one
+    // operand, whatever it evaluates to), operands reached through other operators, literal operands
+    let bare = json!({"merge": {"var": ""}});
+    let (ob, _) = ctx.check("c15.merge.model", &bare, &data);
+    ctx.mon("c15.merge.length").observed += 1;
+    ctx.mon("c15.merge.length").judged += 1;
+    if !matches!(&ob.out, Outcome::Ok(r) if r.to_string() == data.to_string()) {
+        ctx.violation("c15.merge.length", "bare-operand-one-level", &bare, &crate::ctx::shallow(&data), json!({"the operand itself": "an array operand is spliced exactly one level"}), ob.out.brief(), "merge of one array operand (written without brackets) is not that array");
+    }
+    if !operands.is_empty() {
+        let via_if = json!({"merge": (0..operands.len()).map(|i| json!({"if": [true, {"var": i}, "x"]})).collect::<Vec<_>>()});
+        let (o2, _) = ctx.check("c15.merge.model", &via_if, &data);
+        if !same_outcome_text(&o2.out, &obs.out) {
+            ctx.violation("c15.merge.length", "operand-route", &via_if, &crate::ctx::shallow(&data), obs.out.brief(), o2.out.brief(), "merge gives a different result when its operands are reached through `if` instead of `var`");
+        }
+        if operands.len() == 1 {
+            let bare1 = json!({"merge": {"var": 0}});
+            let (o3, _) = ctx.check("c15.merge.model", &bare1, &data);
+            if !same_outcome_text(&o3.out, &obs.out) {
+                ctx.violation("c15.merge.length", "bare-vs-bracketed", &bare1, &crate::ctx::shallow(&data), obs.out.brief(), o3.out.brief(), "{merge: x} differs from {merge: [x]}");
+            }
+        }
+    }
     if operands.iter().any(|o| o.as_array().map(|a| a.iter().any(|x| x.is_array())).unwrap_or(false)) {
         ctx.mark_nontrivial(&rule, &data);
         ctx.cell("merge:nested-array-operand");
     }
     ctx.cell(&format!("merge:n={}", operands.len().min(6)));
+}
+
+fn same_outcome_text(a: &Outcome, b: &Outcome) -> bool {
+    match (a, b) {
+        (Outcome::Ok(x), Outcome::Ok(y)) => x.to_string() == y.to_string(),
+        (Outcome::Err(_), Outcome::Err(_)) => true,
+        (Outcome::Panic(_), Outcome::Panic(_)) => true,
+        _ => false,
+    }
 }
 
 fn c15_in(ctx: &mut Ctx, needle: &Value, hay: &Value) {
